@@ -85,7 +85,7 @@ macro_rules! seal_equiv_harness {
                 }
                 _ => assert!(false, "single-shot seal and setup+seal disagree"),
             }
-            assert!(rng1.pos == rng2.pos && rng1.fill_calls == rng2.fill_calls);
+            assert!(rng1.pos == rng2.pos);
         }
     };
 }
